@@ -419,7 +419,7 @@ theorem renderCols_prim_sensitive_aux (K : Consts) (hp hp' : Heap) (byId byId' :
     -- decompose both runs
     have dec : ∀ (hp : Heap) (byId : List (Option Int × String)) (a : Nat) (cs : List Cell),
         renderCols K hp byId a (n :: ns) = .ok cs →
-        ∃ c cs0, renderVal K hp byId (hp.length + 1) ((slot hp a n).getD .none) = .ok c ∧
+        ∃ c cs0, renderVal K hp byId (2 * hp.length + 2) ((slot hp a n).getD .none) = .ok c ∧
           renderCols K hp byId a ns = .ok cs0 ∧ cs = c :: cs0 := by
       intro hp byId a cs h
       rw [renderCols] at h
